@@ -45,7 +45,7 @@ def run(ctx):
     ctx.assumes.append("weights are ring elements (exact arithmetic); pruning with tol>0 is compared exactly on Gaussian-integer weights only")
     ctx.rules.append("strings over {I,X,Y,Z}^n with all phases: exhaustive n=1 pairs, all n=2 letter pairs, random n<=%d; "
                      "operator insertion/removal histories; parse of printed and malformed strings; raw constructor data. "
-                     "non-trivial = distinct case whose strings are not all identity strings" % (12 if ctx.thorough else 8))
+                     "non-trivial = distinct case whose strings are not all identity strings" % (14 if ctx.thorough else 8))
     ctx.lib(["Pauli/PauliCheck", "Pauli/PauliProofs2"])
     ctx.translate("GenPauli", gen_pauli.generate)
     if not any(o["name"] == "translator:GenPauli" and not o["ok"] for o in ctx.obligations):
@@ -74,8 +74,8 @@ def run(ctx):
     L2 = [([z0, z1], [x0, x1]) for z0 in (0, 1) for x0 in (0, 1) for z1 in (0, 1) for x1 in (0, 1)]
     for a, b in itertools.product(L2, L2):
         pairs.append(((a[0], a[1], rng.randint(0, 3)), (b[0], b[1], rng.randint(0, 3))))
-    nmax = 12 if ctx.thorough else 8
-    for _ in range(3000 if ctx.thorough else 300):
+    nmax = 14 if ctx.thorough else 8
+    for _ in range(10000 if ctx.thorough else 300):
         n = rng.randint(2, nmax)
         pairs.append((rand_p(rng, n), rand_p(rng, n)))
     for a, b in pairs:
@@ -90,6 +90,18 @@ def run(ctx):
         except Exception as e:
             ctx.fail("pair:exception", desc, "product/commutation defined", repr(e))
             continue
+        # operands are not modified by @ / commutes_with / as_matrix / str, and results are repeatable
+        if (list(pa.z), list(pa.x), pa.q, list(pb.z), list(pb.x), pb.q) != (list(a[0]), list(a[1]), a[2] % 4, list(b[0]), list(b[1]), b[2] % 4):
+            ctx.fail("matmul:operand-modified", desc, "operands unchanged", "changed")
+        if len(a[0]) <= 4:
+            m1 = dense(pr.as_matrix()); s1 = str(pr)
+            pr.as_matrix(); (pa @ pb)
+            t = pa @ pb
+            t.set_pauli("Y", 0)            # editing one product must not leak into operands or other products
+            if (not np.array_equal(dense(pr.as_matrix()), m1) or str(pr) != s1
+                    or not np.array_equal(dense(pa.as_matrix()), ref_matrix(*a)) or not np.array_equal(dense(pb.as_matrix()), ref_matrix(*b))
+                    or not np.array_equal(dense((pa @ pb).as_matrix()), m1)):
+                ctx.fail("matmul:result-not-repeatable-or-aliased", desc, "pure function of the operands", "differs after repeated calls / editing a result")
         # oracle on the implementation (dense reference)
         if len(a[0]) <= 6:
             A, B = ref_matrix(*a), ref_matrix(*b)
@@ -100,7 +112,7 @@ def run(ctx):
 
     # ---------------------------------------------------------------- single strings
     singles = [([], [], q) for q in range(4)] + list(L1) + [(a[0], a[1], q) for a in L2 for q in range(4)]
-    for _ in range(600 if ctx.thorough else 120):
+    for _ in range(2000 if ctx.thorough else 120):
         singles.append(rand_p(rng, rng.randint(1, 6 if ctx.thorough else 5)))
     for a in singles:
         ctx.count("single_n=%d" % len(a[0]))
@@ -140,7 +152,7 @@ def run(ctx):
         s = str(mk(*a))
         strs += [s, "+" + s, " " + " ".join(s)]
     alphabet = "IXYZi-+ xa1"
-    for _ in range(1500 if ctx.thorough else 250):
+    for _ in range(5000 if ctx.thorough else 250):
         strs.append("".join(rng.choice(alphabet) for _ in range(rng.randint(0, 6))))
     strs += ["", "+", "-", "i", "-i", "+-", "+i", "--X", "-iiX", "i-X", " ", "+ X", "X+", "Xi"]
     for s in dict.fromkeys(strs):
@@ -155,7 +167,7 @@ def run(ctx):
 
     # ---------------------------------------------------------------- mutator histories (set_pauli)
     LCODE = {"I": (0, 0), "X": (0, 1), "Y": (1, 1), "Z": (1, 0)}
-    for h in range(600 if ctx.thorough else 150):
+    for h in range(2000 if ctx.thorough else 150):
         n = rng.randint(1, 5)
         a = rand_p(rng, n)
         ps = mk(*a)
@@ -185,7 +197,7 @@ def run(ctx):
             ctx.fail("set_pauli:string-after-edit-wrong", dict(desc, other=other), "letters edited in place, matrix/product follow", str(ps))
 
     # ---------------------------------------------------------------- operator histories
-    for h in range(400 if ctx.thorough else 80):
+    for h in range(1500 if ctx.thorough else 80):
         n = rng.randint(1, 3)
         pool = [rand_p(rng, n) for _ in range(rng.randint(1, 4))]
         ops, terms, hist = [], [], []
@@ -246,7 +258,7 @@ def run(ctx):
     def raw(rng, n):
         return [rng.choice([0, 1, 0, 1, 0, 1, 2, -1]) for _ in range(n)]
     ctors = []
-    for _ in range(600 if ctx.thorough else 150):
+    for _ in range(2000 if ctx.thorough else 150):
         n = rng.randint(0, 5)
         z, x = raw(rng, n), raw(rng, n if rng.random() < 0.85 else n + 1)
         ctors.append((z, x, rng.randint(-9, 9), rng.choice(["list", "tuple", "array", "int8", "bool"])))
